@@ -1000,8 +1000,9 @@ class Durable:
         if exp and exp[0] == "err":
             return
         coin = any(d[0] == "coin" and d[1] for d in dec)
-        if name in ("write_at", "write") and wr and wr[2]:
-            self.pend.append((wr[0], wr[1], list(wr[2])))
+        if name in ("write_at", "write") and wr:
+            if wr[2]:
+                self.pend.append((wr[0], wr[1], list(wr[2])))
             if coin:
                 self.data_sync(wr[0])
         elif name == "spit":
